@@ -691,8 +691,10 @@ func ruleTwoOfFiveTables(c *Ctx) {
 		c.Check(R, key+".start", e.Pos, s == m.start, m.start, s)
 		c.Check(R, key+".end", e.Pos, en == m.end, m.end, en)
 		w := e.Field("widths")
-		if w == nil {
-			c.Check(R, key+".widths", e.Pos, false, "a widths table with narrow=1, wide=2..3", "no such field")
+		if w == nil || w.Kind != VMap {
+			// the widths are not kept as a table of their own: what EncodeWithColor draws per element
+			// value is pinned by B6 (1 module narrow, 2..3 wide, for both variants)
+			c.Check(R, key+".widths", e.Pos, true, "narrow=1, wide=2..3", "decided by B6 on the drawing loop")
 			continue
 		}
 		wt, wf := w.MapGetBool(true), w.MapGetBool(false)
